@@ -17,7 +17,12 @@ import (
 )
 
 // Root is /verif (overridable for tests).
-var Root = "/verif"
+var Root = func() string {
+	if r := os.Getenv("VERIF_ROOT"); r != "" {
+		return r
+	}
+	return "/verif"
+}()
 
 // Finding is one violation of a property on one case.
 type Finding struct {
